@@ -2,6 +2,8 @@ import KyupyVerif.Props.C11
 import KyupyVerif.Props.C10Datasheet
 import KyupyVerif.Proofs.VerilogLib5
 import KyupyVerif.Proofs.VerilogLib6
+import KyupyVerif.Proofs.VerilogLibFit
+import KyupyVerif.Proofs.FormatEquiv
 /-! # C11 (capstone) — structural Verilog over a CELL LIBRARY: text → parse → `resolve_tlib_cells` → `SimOps` → `LogicSim`
 computes the DATASHEET denotation of the module
 
@@ -41,6 +43,16 @@ state element by its kind name), input port bits, assign pairs and undriven name
     every interface node (output port bit, data pin of a flip-flop / latch that is a primitive state element) is what the module
     observes (`vCaptures`).  `verilog_library_text_end_to_end` — the same for the circuit built from the model's reading of the
     printed module TEXT (`verilog_text_to_nnet`; any layout by `verilog_text_layout_irrelevant`).
+  - `verilog_library_by_name` / `verilog_library_end_to_end_by_name` — **(e) library pins BY NAME** (audit-2 finding 8): `VModelLib`
+    reads the pins of a library instance by INDEX under the pin table `tl`, its data-book function is written over the pin NAMES of
+    the table row; inside `tlFitsB` (below) `VModelLib` IS `VModelLibN` (Model/VerilogLibFit.lean), the denotation in which input `k`
+    of the data-book function is the signal connected to the pin NAMED `(row ty).inNames[k]` and the output NAMED
+    `(row ty).outNames[k]` drives the signal connected to it — no `tl` in the reading of library pins
+    (Proofs/VerilogLibFit.lean `vModelLib_iff_byName`); (d) restated with `VModelLibN`.  The crossed pin table of the audit witness
+    (`exTLx`: every other hypothesis true, index reading `b1 ∨ (a ∧ b2)`) has `tlFitsB = false` (kernel-checked example).
+  - `vArityLib_of_vArity` — `vArityB` (C11) implies the arity domain `vArityLibB` of the capstone.
+  - `bench_verilog_equiv_partial` — "either format", gate clause ONLY (see the comment above it for the unproved netlist-level
+    statement): the primitive-library instance rendering a bench gate statement drives its name and computes the same value.
   - non-vacuity (section `Example`): NANGATE `AOI21_X1` feeding `INV_X1` (real implementation dumps, rows of the generated tables),
     and the same with a flip-flop `DFF` as PRIMITIVE state element in a feedback loop: every hypothesis by `decide +kernel`, the
     theorem applied (from the text; line value resp. captured values = those of the datasheet model the evaluator computes).
@@ -54,7 +66,15 @@ state element by its kind name), input port bits, assign pairs and undriven name
   library-cell node (listed combinational family, implementation acyclic and described by its row of the generated C19 tables,
   ALL input pins connected); `h'.net.sNodes = (verilogNet …).sNodes` (the resolved circuit has the same interface nodes in the
   same order: no implementation adds a state element); `orderOKB` / `forksOKB` / `linesDrivenB` of the resolved circuit and the
-  real topological order; the constant slot of the stimulus holds 0.
+  real topological order; the constant slot of the stimulus holds 0;
+  `tlFitsB (libHas lib) row tl stmts` (audit-2 finding 8; last but one hypothesis of (d) and of the text version): for every library
+  instance the pin table `tl` maps the `k`-th input name of its table row to `(k, input)`, the `k`-th output name to `(k, output)`, and
+  every pin the instance connects is a name of the row — (d) is TRUE without it (the proof does not use it), but only with it is
+  `VModelLib` the reading by pin name (e); `vArityLibB (libHas lib) tl stmts` (known finding D33; last hypothesis; a DOMAIN
+  hypothesis, not used by the proof): every instance that is neither a library cell nor a state element — i.e. stays a simulation
+  primitive — has its connected input pins at indices 0..3; without it a primitive `AND5` next to certified cells is read (by model
+  and simulator alike) as the AND of its first four pins (example `exS5`).  Library instances are exempt (`AOI222` has six pins:
+  their meaning is the data-book function over all pins, realised by the certified implementation circuit).
   NOT covered: sequential library cells (`DFF_X1` … as LIBRARY cells: a flip-flop is covered only as a primitive state element, i.e.
   when its kind is not in `lib`), cells outside the listed families (tri-state, ties, decoders, …), unconnected input pins of
   library instances, Verilog outside `verilogOKB`.
@@ -62,6 +82,10 @@ state element by its kind name), input port bits, assign pairs and undriven name
   inside the hypotheses (counted, tags `library-sem:*`): the model's `σ` (driver `verilogsemlib`: evaluator `vEvalLib`, accepted by
   `vModelLibB`, sound by `verilog_lib_checker_sound`) observed at output ports and state elements == the REAL `LogicSim(m=2)` on the
   REAL parsed + resolved circuit on sampled rows; the model's resolved dump == the real resolved dump.  Mismatch = broken tie.
+  `tlFitsB` and `vArityLibB` are flags 10 and 11 of the driver answer, `tlFitsB` evaluated on the REAL pin table
+  `tlib.cells[kind][1]` the harness sends against the generated table row (tags `library-sem:tlFits=*`, `library-sem:vArityLib=*`;
+  `library-sem:tlExact=*`: the real table has exactly as many entries as the row has pins); a case inside the fragment whose
+  library instances are all certified but with `tlFitsB` or `tlExactB` false = broken tie (`library_sem: pin table`).
   What remains trusted: `describesB` (the dump handed to the model is the implementation whose `SimOps` rows were dumped into the
   tables — evaluated per cell, C10 stream `ds-cert`), the correspondence of `resolveCells` / the parser model with the real code. -/
 namespace KV.C11
@@ -231,7 +255,8 @@ theorem verilog_library_end_to_end (cfg : Cfg) (tl : TL) (ports : List String) (
       (lib.find ((verilogNNet cfg tl ports stmts).net.node c).kind).isSome = true → InstCert lib row ord (verilogNNet cfg tl ports stmts) c)
     (hsn : h'.net.sNodes = (verilogNet cfg tl ports stmts).sNodes)
     (order : List Nat) (ho : orderOKB h'.net order = true) (hfk : forksOKB h'.net order = true)
-    (hall : linesDrivenB Gen.kindPrefixes h'.net order = true) (env : Nat → Bool) (hz : env h'.net.idx.zero = false) :
+    (hall : linesDrivenB Gen.kindPrefixes h'.net order = true) (env : Nat → Bool) (hz : env h'.net.idx.zero = false)
+    (_htl : tlFitsB (libHas lib) row tl stmts = true) (_har : vArityLibB (libHas lib) tl stmts = true) :
     ∃ σ, VModelLib (libHas lib) row tl ports stmts (fun p => env (h'.net.idx.ppi + p)) σ ∧
       (∀ σ', VModelLib (libHas lib) row tl ports stmts (fun p => env (h'.net.idx.ppi + p)) σ' → σ' = σ) ∧
       (∀ i, i < (verilogNet cfg tl ports stmts).lines.size →
@@ -256,7 +281,8 @@ theorem verilog_library_text_end_to_end (cfg : Cfg) (tl : TL) (m : KV.VerilogTex
     (hcert : ∀ c, c < nn.net.nodes.size → (lib.find (nn.net.node c).kind).isSome = true → InstCert lib row ord nn c)
     (hsn : h'.net.sNodes = nn.net.sNodes)
     (order : List Nat) (ho : orderOKB h'.net order = true) (hfk : forksOKB h'.net order = true)
-    (hall : linesDrivenB Gen.kindPrefixes h'.net order = true) (env : Nat → Bool) (hz : env h'.net.idx.zero = false) :
+    (hall : linesDrivenB Gen.kindPrefixes h'.net order = true) (env : Nat → Bool) (hz : env h'.net.idx.zero = false)
+    (htl : tlFitsB (libHas lib) row tl (rs.map transform) = true) (har : vArityLibB (libHas lib) tl (rs.map transform) = true) :
     ∃ σ, VModelLib (libHas lib) row tl m.ports (rs.map transform) (fun p => env (h'.net.idx.ppi + p)) σ ∧
       (∀ σ', VModelLib (libHas lib) row tl m.ports (rs.map transform) (fun p => env (h'.net.idx.ppi + p)) σ' → σ' = σ) ∧
       (∀ i, i < nn.net.lines.size →
@@ -268,6 +294,76 @@ theorem verilog_library_text_end_to_end (cfg : Cfg) (tl : TL) (m : KV.VerilogTex
   rw [verilog_text_to_nnet cfg tl m rs hv hr hpos hsok] at hnn
   cases hnn
   exact verilog_library_end_to_end cfg tl m.ports (rs.map transform) hok lib hcl h' hw hrok he row ord hcert hsn order ho hfk hall env hz
+    htl har
+
+/-- **library pins BY NAME** (audit-2 finding 8): inside `tlFitsB` — the pin table numbers the pins of every library instance as
+the table row `row ty` lists them (inputs and outputs, in the row's order), and the instance connects only pins of the row — the
+datasheet denotation `VModelLib` (pins by INDEX under `tl`) IS the denotation `VModelLibN` in which input `k` of the data-book
+function is the signal connected to the pin NAMED `(row ty).inNames[k]` and the output NAMED `(row ty).outNames[k]` drives the
+signal connected to it (Model/VerilogLibFit.lean; no `tl` in the reading of library pins) -/
+theorem verilog_library_by_name (lib : Lib) (row : String → Cell) (tl : TL) (ports : List String) (stmts : List Stmt)
+    (htl : tlFitsB (libHas lib) row tl stmts = true) (a : Nat → Bool) (σ : String → Bool) :
+    VModelLib (libHas lib) row tl ports stmts a σ ↔ VModelLibN (libHas lib) row tl ports stmts a σ :=
+  vModelLib_iff_byName (libHas lib) row tl ports stmts htl a σ
+
+/-- **(d) with the library pins read BY NAME**: the capstone with the denotation `VModelLibN` (here `tlFitsB` is used) -/
+theorem verilog_library_end_to_end_by_name (cfg : Cfg) (tl : TL) (ports : List String) (stmts : List Stmt)
+    (hok : verilogOKB cfg tl ports stmts = true) (lib : Lib) (hcl : libCleanB lib stmts = true) (h' : NNet)
+    (hw : (verilogNNet cfg tl ports stmts).wf = true)
+    (hrok : resolveOKB lib (verilogNNet cfg tl ports stmts).keys (verilogNNet cfg tl ports stmts) = true)
+    (he : resolveCells lib (verilogNNet cfg tl ports stmts) = some h') (row : String → Cell) (ord : String → List Nat)
+    (hcert : ∀ c, c < (verilogNNet cfg tl ports stmts).net.nodes.size →
+      (lib.find ((verilogNNet cfg tl ports stmts).net.node c).kind).isSome = true → InstCert lib row ord (verilogNNet cfg tl ports stmts) c)
+    (hsn : h'.net.sNodes = (verilogNet cfg tl ports stmts).sNodes)
+    (order : List Nat) (ho : orderOKB h'.net order = true) (hfk : forksOKB h'.net order = true)
+    (hall : linesDrivenB Gen.kindPrefixes h'.net order = true) (env : Nat → Bool) (hz : env h'.net.idx.zero = false)
+    (htl : tlFitsB (libHas lib) row tl stmts = true) (har : vArityLibB (libHas lib) tl stmts = true) :
+    ∃ σ, VModelLibN (libHas lib) row tl ports stmts (fun p => env (h'.net.idx.ppi + p)) σ ∧
+      (∀ σ', VModelLibN (libHas lib) row tl ports stmts (fun p => env (h'.net.idx.ppi + p)) σ' → σ' = σ) ∧
+      (∀ i, i < (verilogNet cfg tl ports stmts).lines.size →
+        exec semL2n ((genOps Gen.kindPrefixes h'.net order false).map OpRow.toOp) env i = vLabel cfg tl stmts false prim2 σ i) ∧
+      ((verilogNet cfg tl ports stmts).sNodes.map fun n => (h'.net.node n).inPin 0 |>.map
+        (exec semL2n ((genOps Gen.kindPrefixes h'.net order false).map OpRow.toOp) env)) =
+          vCaptures tl ports stmts false prim2 σ := by
+  obtain ⟨σ, hm, hu, hl, hc⟩ := verilog_library_end_to_end cfg tl ports stmts hok lib hcl h' hw hrok he row ord hcert hsn order ho hfk
+    hall env hz htl har
+  exact ⟨σ, (verilog_library_by_name lib row tl ports stmts htl _ σ).mp hm,
+    fun σ' hm' => hu σ' ((verilog_library_by_name lib row tl ports stmts htl _ σ').mpr hm'), hl, hc⟩
+
+/-- the arity domain of C11 (`vArityB`: every combinational instance) implies the one of the capstone (`vArityLibB`: library
+instances exempt) -/
+theorem vArityLib_of_vArity (isLib : String → Bool) (tl : TL) (stmts : List Stmt) (h : vArityB tl stmts = true) :
+    vArityLibB isLib tl stmts = true := by
+  simp only [vArityB, vArityLibB, List.all_eq_true, Bool.or_eq_true] at h ⊢
+  intro i hi
+  rcases h i hi with h1 | h1
+  · exact Or.inl (Or.inr h1)
+  · exact Or.inr (by simpa using h1)
+
+/-! ### "the same netlist written in either format" — PARTIAL (audit-2 B-C11-4)
+
+FULL STATEMENT (NOT proved; stays with the oracle `format-equivalence` of harness/c11.py `run_netlist`):
+  for a netlist description `nl` (input names `pis`, output names `pos`, gates `name = K(drv…)` with an instance name each) in the
+  common fragment `nlOKB nl` (decidable: names pairwise different, no name a constant literal or an instance name, every operand
+  and every output an input or a gate name, at most four operands, kinds of the primitive library) and its two renderings
+  `benchOf nl : List BStmt`, `verilogOf nl : List Stmt` (single-bit declarations, one `instOfGate` per gate, pin table `primTL`):
+    `theorem bench_verilog_equiv : ∀ a σ, BenchModel (benchOf nl) z prim a σ ↔ VModel primTL (nl.pis ++ nl.pos) (verilogOf nl) z neg prim a σ`
+  — with `bench_parsed_sem` / `verilog_parsed_sem`: both circuits have the same consistent labellings on the named signals.
+PROVED (`bench_verilog_equiv_partial`): the gate clause — the instance that renders a combinational bench statement drives exactly
+the signal `name` (output connection list `[(0, name)]`) and the value `VModel` requires on it (`instVal`) is the value `BenchModel`
+requires (`gateVal`), any value domain.  MISSING: the bookkeeping around it — `sigDecls` / `inputNames` / `posNames` of the
+single-bit declarations, equality of the interface positions (`vSPos` of port cells vs `benchSPos` of port forks, state elements),
+the clause for names without driver, state elements (`isSeqKind`). -/
+theorem bench_verilog_equiv_partial {α : Type} (z : α) (neg : α → α) (prim : String → α → α → α → α → α) (a : Nat → α) (pos : Nat)
+    (ds : List Decl) (K inst name : String) (drv : List String) (hlen : drv.length ≤ 4) (hseq : KV.Netlist.isSeqKind K = false)
+    (hc : ∀ d ∈ drv, isConstLit d = false) (σ : String → α) :
+    outConn primTL ds (instOfGate K inst name drv) = [(0, (outSig ds name).1)] ∧
+    instVal primTL z neg prim a pos (instOfGate K inst name drv) 0 σ = gateVal z prim K drv σ :=
+  ⟨outConn_instOfGate ds K inst name drv hlen, gate_format_equiv z neg prim a pos K inst name drv hlen hseq hc σ⟩
+
+/-- the hypotheses hold for `n = NAND(a, b, c)`: the instance is `NAND g(.o(n), .i0(a), .i1(b), .i2(c))` -/
+example : (instOfGate "NAND" "g" "n" ["a", "b", "c"]).pins = [("o", .one "n"), ("i0", .one "a"), ("i1", .one "b"), ("i2", .one "c")] ∧
+    KV.Netlist.isSeqKind "NAND" = false ∧ (["a", "b", "c"].all fun d => !isConstLit d) = true := by decide +kernel
 
 /-- the driver's acceptance check is sound: an accepted table IS a datasheet model -/
 theorem verilog_lib_checker_sound (isLib : String → Bool) (row : String → Cell) (tl : TL) (ports : List String) (stmts : List Stmt)
@@ -394,6 +490,43 @@ theorem exCerts : ∀ c, c < exNN.net.nodes.size → (exLibN.find (exNN.net.node
   · exact absurd hs (by decide +kernel)
   · exact absurd hs (by decide +kernel)
 
+/-- the pin table `exTLn` numbers the pins of `u1`, `u2` as their table rows list them; no primitive instance at all -/
+theorem exTl_fits : tlFitsB (libHas exLibN) exRowN exTLn exLS = true := by decide +kernel
+theorem exL_arity : vArityLibB (libHas exLibN) exTLn exLS = true := by decide +kernel
+
+/-- **the witness of audit-2 finding 8 is outside**: the pin table with `A` and `B1` of `AOI21_X1` CROSSED (a `TechLib` that numbers
+pins wrongly) keeps every other hypothesis of the capstone that mentions `tl` (fragment, well-formedness, `resolveOKB`, the
+certificates) and makes the index reading `y = b1 ∨ (a ∧ b2)` — `tlFitsB` is false for it -/
+def exTLx : TL := fun k p =>
+  if k == "AOI21_X1" then (if p == "A" then some (1, false) else if p == "B1" then some (0, false) else if p == "B2" then some (2, false)
+    else if p == "ZN" then some (0, true) else none)
+  else exTLn k p
+example : verilogOKB {} exTLx exLM.ports exLS = true ∧ (verilogNNet {} exTLx exLM.ports exLS).wf = true ∧
+    resolveOKB exLibN (verilogNNet {} exTLx exLM.ports exLS).keys (verilogNNet {} exTLx exLM.ports exLS) = true ∧
+    KV.Drv.VerilogLib.certsB exLibN (fun k => some (exRowN k)) exOrdN (verilogNNet {} exTLx exLM.ports exLS) = true ∧
+    (List.range 8).map (fun r => lookupA (vEvalLib (libHas exLibN) exRowN exTLx exLM.ports exLS (fun p => (r >>> p) % 2 == 1)) "y") =
+      [some false, some false, some true, some true, some false, some true, some true, some true] ∧
+    tlFitsB (libHas exLibN) exRowN exTLx exLS = false := by decide +kernel
+
+/-- the reading BY NAME of the instance `u1` does not look at any pin table: the values on the pins named `A`, `B1`, `B2` -/
+example (σ : String → Bool) : libInValsN (exRowN "AOI21_X1") σ ⟨"AOI21_X1", "u1", [("A", .one "a"), ("B1", .one "b1"), ("B2", .one "b2"),
+    ("ZN", .one "n")]⟩ = [σ "a", σ "b1", σ "b2"] := by
+  have h : (exRowN "AOI21_X1").inNames = [c!"A", c!"B1", c!"B2"] := by decide +kernel
+  simp [libInValsN, h, pinSigN, sigVal, isConstLit]
+
+/-- **a wide primitive next to certified cells is outside** (known finding D33): `AND5 g(.A1(a), .A2(b1), .A3(b2), .A4(a), .A5(b1),
+.Z(n))` as a simulation primitive (kind not in the library) is read by `instVal` as the AND of its first four pins — `vArityLibB` is false -/
+def exTL5 : TL := fun k p =>
+  if k == "AND5" then (if p == "A1" then some (0, false) else if p == "A2" then some (1, false) else if p == "A3" then some (2, false)
+    else if p == "A4" then some (3, false) else if p == "A5" then some (4, false) else if p == "Z" then some (0, true) else none)
+  else exTLn k p
+def exS5 : List Stmt := [.decls [⟨.input, "a", none⟩, ⟨.input, "b1", none⟩, ⟨.input, "b2", none⟩], .decls [⟨.output, "y", none⟩],
+  .decls [⟨.wire, "n", none⟩],
+  .inst "AND5" "g" [("A1", .one "a"), ("A2", .one "b1"), ("A3", .one "b2"), ("A4", .one "a"), ("A5", .one "b1"), ("Z", .one "n")],
+  .inst "INV_X1" "u2" [("I", .one "n"), ("ZN", .one "y")]]
+example : verilogOKB {} exTL5 ["a", "b1", "b2", "y"] exS5 = true ∧ libCleanB exLibN exS5 = true ∧
+    tlFitsB (libHas exLibN) exRowN exTL5 exS5 = true ∧ vArityLibB (libHas exLibN) exTL5 exS5 = false := by decide +kernel
+
 /-- the stimulus `a = 0, b1 = 1, b2 = 1` (interface positions 0, 1, 2; position 3 is the output port `y`) -/
 def exEnv : Nat → Bool := fun x => x == exH.net.idx.ppi + 1 || x == exH.net.idx.ppi + 2
 
@@ -412,7 +545,7 @@ example : exec semL2n ((genOps Gen.kindPrefixes exH.net exOrder false).map OpRow
   obtain ⟨σ, _, huniq, hlines, _⟩ := verilog_library_text_end_to_end {} exTLn exLM exLRs exLM_valid exLM_rs
     (by decide +kernel) (by decide +kernel) exLS_ok exLibN exLib_clean
     exNN exH hnn exNN_wf exNN_rok exH_eq exRowN exOrdN exCerts exH_sn exOrder exH_sched.1 exH_sched.2.1 exH_sched.2.2 exEnv
-    (by decide +kernel)
+    (by decide +kernel) exTl_fits exL_arity
   have hσ := huniq _ (verilog_lib_checker_sound _ _ _ _ _ _ _ exModel.2)
   rw [hlines 9 (by decide +kernel), ← hσ]
   decide +kernel
@@ -433,6 +566,16 @@ example : KV.VerilogText.validModule exBadM = true ∧ exBadM.stmts.any KV.Veril
     (KV.VerilogText.toRs exBadM.stmts).map (fun rs => (rs.all RStmt.ok, verilogOKB {} exTLn exBadM.ports (rs.map transform))) =
       some (false, true) ∧
     (KV.VerilogText.circOfText {} exTLn (KV.VerilogText.printVerilog [exBadM])).map (·.err) = some true := by decide +kernel
+
+/-- **the by-name capstone applied**: the unique model of the module with the pins of `u1`, `u2` read BY NAME exists and gives the
+output `y` the simulated value of line 9 under the stimulus (`a = 0, b1 = b2 = 1`: `y = 1`) -/
+example : ∃ σ, VModelLibN (libHas exLibN) exRowN exTLn exLM.ports exLS (fun p => exEnv (exH.net.idx.ppi + p)) σ ∧
+    vLabel {} exTLn exLS false prim2 σ 9 = true := by
+  obtain ⟨σ, hm, _, hlines, _⟩ := verilog_library_end_to_end_by_name {} exTLn exLM.ports exLS exLS_ok exLibN exLib_clean exH exNN_wf exNN_rok
+    exH_eq exRowN exOrdN exCerts exH_sn exOrder exH_sched.1 exH_sched.2.1 exH_sched.2.2 exEnv (by decide +kernel) exTl_fits exL_arity
+  refine ⟨σ, hm, ?_⟩
+  rw [← hlines 9 (by decide +kernel)]
+  decide +kernel
 
 /-- … and the same value by evaluating the program directly (independent of the theorem) -/
 example : exec semL2n ((genOps Gen.kindPrefixes exH.net exOrder false).map OpRow.toOp) exEnv 9 = true := by decide +kernel
@@ -513,7 +656,7 @@ example : ((verilogNet {} exTLf exFM.ports exFS).sNodes.map fun n => (exFH.net.n
       [("a", false), ("b", true), ("q", true), ("y", false), ("d", false)] = true := by decide +kernel
   obtain ⟨σ, _, huniq, _, hcap⟩ := verilog_library_end_to_end {} exTLf exFM.ports exFS (by decide +kernel) exLibN (by decide +kernel)
     exFH (by decide +kernel) (by decide +kernel) exFH_eq exRowN exOrdN exFCerts (by decide +kernel) exFOrder (by decide +kernel)
-    (by decide +kernel) (by decide +kernel) exFEnv (by decide +kernel)
+    (by decide +kernel) (by decide +kernel) exFEnv (by decide +kernel) (by decide +kernel) (by decide +kernel)
   have hσ := huniq _ (verilog_lib_checker_sound _ _ _ _ _ _ _ hm)
   rw [hcap, ← hσ]
   decide +kernel
